@@ -20,6 +20,7 @@ import (
 	"github.com/Oneledger/protocol/data/keys"
 	"github.com/Oneledger/protocol/data/ons"
 	"github.com/Oneledger/protocol/storage"
+	"github.com/Oneledger/protocol/vm"
 
 	_ "github.com/Oneledger/protocol/action/ons" // the linknamed functions live here
 
@@ -38,7 +39,7 @@ func funcsCalculateRenewal(buyingPrice, pricePerBlock *balance.Amount, from int6
 
 type FuncsOptions struct {
 	Driver string // path of the olpfuncs<group> executable
-	Group  string // 02 | 09 | 15 | 20
+	Group  string // 02 | 09 | 15 | 17 | 20
 	Seed   uint64
 	Cases  int
 }
@@ -197,6 +198,26 @@ func funcsCase(group string, r *rng.R) (line, impl string) {
 		default:
 			return fmt.Sprintf("failed %d %s", n, l), fb(t.Failed())
 		}
+	case "17":
+		n := r.Intn(60)
+		if r.Intn(6) == 0 {
+			n = 0
+		}
+		data := make([]byte, n)
+		var toks []string
+		for i := range data {
+			if r.Intn(3) != 0 {
+				data[i] = byte(r.Intn(256))
+			}
+			toks = append(toks, strconv.Itoa(int(data[i])))
+		}
+		l := strings.Join(toks, ",")
+		if l == "" {
+			l = "-"
+		}
+		create := r.Intn(2) == 0
+		g, err := vm.IntrinsicGas(data, nil, create)
+		return fmt.Sprintf("intrinsicGas %s %s", l, fb(create)), fmt.Sprintf("%d %s", g, ferr(err))
 	case "20":
 		switch r.Intn(9) {
 		case 0:
